@@ -27,7 +27,11 @@ RULE = ('centres from a 10-name alphabet (incl. C[d], C[.], CO, Pt, N[A]) x '
         'files spelling their keys non-canonically. Non-trivial = a multiset '
         'with >=2 distinct spellings whose equality, hash, dict-slot and '
         'parse round-trip relations were all evaluated; distinct by '
-        '(centre, multiset).')
+        '(centre, multiset).'
+        ' '
+        'Rounds 17-19: copies / pickles of groups; groups of a user'
+        ' subclass and across importlib.reload in the child interpreter;'
+        ' construction and parsing from four threads.')
 ASSUMPTIONS = [
     'sub-group names are non-empty, contain no parentheses and are not all '
     'digits',
